@@ -173,6 +173,21 @@ CLAIMED = {
         "CIBA state across restores; file-store operation sequences on real directories vs the Lean model.",
    note="Relying-party side export/import (Current, ServiceContext) is not yet exercised; JSON value syntax, mtime granularity and concurrent writers are not modelled.",
    technique="Lean 4 proof (invariant by induction over file-store operations; generic dump/load law + generated table obligation) + crash-point correspondence", ref="6 C13"),
+ "C08": dict(
+   text="Lean theorems over a model of verify_id_token + IdToken.verify + the service-level nonce checks: acceptance — through the message API "
+        "(accept_msg_valid) and through parse_response + post_parse_response / update_service_context (accept_service_valid) — implies the whole "
+        "conjunction of the property: alg none only with explicit permission; otherwise signed, over exactly this header and payload, by a key "
+        "the key jar holds for the EXPECTED issuer (or the shared client secret with an HMAC algorithm) with the algorithm the RP asked for; iss, "
+        "aud, azp (required with several audiences), the exp/iat window with skew and nonce storage time, the nonce bound to the pending flow "
+        "the response is processed for (at the token endpoint through the nonce->state map), at_hash/c_hash at the authorization endpoint. "
+        "Corollaries: the algorithm is always the registered/configured/default one on the service path; outsiders (foreign keys, the issuer's "
+        "public key as HMAC secret, keys of another known issuer) are never accepted; a rejected token is never stored. Tie: a real "
+        "StandAloneClient with pending flows; genuine tokens signed by the harness and every single and random multiple mutation of claims, "
+        "header and signer under eight RP settings, delivered through both APIs at both endpoints; outcome and storage compared with the model; "
+        "oracle: an independent validator of the conjunction.",
+   note="JWS verification and cryptojwt's key selection are the decision function sigOk over who signed (trusted: signature soundness); JWE-wrapped ID tokens and "
+        "several keys of one family with a missing kid are not exercised.",
+   technique="Lean 4 proof (decision logic, acceptance implies conjunction) + mutation correspondence through message and service APIs", ref="6 C08"),
 }
 NOT_YET = {}
 ALL = [f"C{i:02d}" for i in range(1, 21)]
